@@ -100,6 +100,13 @@ def matrix_case(case):
     names_req = FEATS[:m]            # deliberately unsorted
     M = [[cell_value(syms[r * m + c], r, c) for c in range(m)]
          for r in range(n)]
+    if case.get("zero_col") is not None:
+        # a feature whose finite values are all exactly 0 (e.g. a binary
+        # criterion that fails for every curve)
+        zc = case["zero_col"]
+        for r in range(n):
+            if syms[r * m + zc] == "v":
+                M[r][zc] = 0.0
     d = tempfile.mkdtemp(dir=tmpdir())
     try:
         for c, nm in enumerate(names_req):
@@ -296,6 +303,10 @@ def cases(tier):
             for y in itertools.product(resp_vals, repeat=n):
                 cs.append({"kind": "matrix", "n": n, "m": m,
                            "cells": list(cells), "response": list(y)})
+                if n * m <= 4 and "nan" in cells and "v" in cells:
+                    cs.append({"kind": "matrix", "n": n, "m": m,
+                               "cells": list(cells), "response": list(y),
+                               "zero_col": 0})
     for n in (1, 2, 3, 4):
         for first in range(11):
             cs.append({"kind": "weights", "n": n, "first": first,
